@@ -273,6 +273,9 @@ def walk_index_ok(P, E, f, sub, n):
     return not bad, ("%d path states, all with 0 <= index <= %d" % (len(res), n - 1) if not bad else "%s not within 0..%d on some path" % (bad[0], n - 1))
 
 
+_QUOT = re.compile(r"^([A-Za-z_][A-Za-z_0-9]*) / ([0-9]+)$")
+
+
 def nonneg(d, form, types=None, depth=0):
     """form >= 0 in disjunct d, using E1's prover, type ranges and proven field invariants."""
     if guard.d_nonneg(d, form):
@@ -294,6 +297,17 @@ def nonneg(d, form, types=None, depth=0):
         return True
     if depth >= 2:
         return False
+    # a quotient taken off: x / K <= x for x >= 0 and a constant K >= 1 (`space = room; space -= room / 58`)
+    for k, c in rest.items():
+        m = _QUOT.match(k) if c < 0 else None
+        if m and int(m.group(2)) >= 1:
+            lo, _ = atom_bounds(d, m.group(1), types)
+            if lo is not None and lo >= 0:
+                nf = dict(form[0])
+                del nf[k]
+                nf[m.group(1)] = nf.get(m.group(1), 0) + c
+                if nonneg(d, ({a: v for a, v in nf.items() if v}, form[1]), types, depth + 1):
+                    return True
     # expand an atom through an equality known in d (x == y + 1) and try again with the bounds of y
     for k, c in rest.items():
         for f in d:
